@@ -139,6 +139,18 @@ func (c *FnCtx) bindClause(cl *clause, env *evalEnv, prefix string) *boundClause
 		if id.name == "retof" {
 			fl.ret = true
 			f := c.L.findFunc(c.fn.Pkg.Pkg.Path(), fl.callee)
+			if f == nil {
+				// pkgname.Func of another /repo package
+				if i := strings.Index(fl.callee, "."); i > 0 {
+					for path, sp := range c.L.spkgs {
+						if strings.HasPrefix(path, repoMod) && sp.Pkg.Name() == fl.callee[:i] {
+							if g := c.L.findFunc(path, fl.callee[i+1:]); g != nil {
+								f = g
+							}
+						}
+					}
+				}
+			}
 			if f == nil || f.Signature.Results().Len() != 1 {
 				ferr = fmt.Errorf("retof(%s): need a function of this package with exactly one result", fl.callee)
 				return
